@@ -27,6 +27,11 @@ var propC11 = &pProp{
 	mkReqs: func(r *rng, gp *genParser, p pParams) []*parsersim.Request {
 		var reqs []*parsersim.Request
 		for ii, in := range drawInputs(r, gp.G, p.inputs, 36) {
+			if r.chance(1, 8) {
+				// a text file that begins with a byte order mark: one more character
+				// of line 1 (U+FEFF), three bytes
+				in = append([]byte("\xef\xbb\xbf"), in...)
+			}
 			for k := 0; k < p.optSets; k++ {
 				o := drawOpts(r, gp, 30, 25)
 				o.AllowInvalidUTF8 = false
